@@ -1198,9 +1198,10 @@ class World:
         saved = (sys.argv, sys.stdout, sys.stderr)
         sys.argv = ["peltool.py"] + real
         sys.stdout, sys.stderr = (None if stdout_closed else out), err      # `>&-`: the interpreter starts with sys.stdout = None
+        # the process always runs inside the scratch tree (its root unless the plan names a directory): whatever the
+        # code under test writes relative to its working directory lands where snapshots see it and teardown removes it
         saved_cwd = os.getcwd()
-        if self.path_style == "rel" or cwd is not None:
-            os.chdir(os.path.join(self.root, cwd) if cwd else self.root)
+        os.chdir(os.path.join(self.root, cwd) if cwd else self.root)
         fs.active = True
         try:
             try:
@@ -1228,8 +1229,7 @@ class World:
             res.leaked = fs.end_op()
         finally:
             fs.active = False
-            if self.path_style == "rel" or cwd is not None:
-                os.chdir(saved_cwd)
+            os.chdir(saved_cwd)
             sys.argv, sys.stdout, sys.stderr = saved
         res.crashed = fs.ev.crashed
         # the scratch path is process specific: never let it reach oracles, logs or digests
